@@ -3,11 +3,13 @@
 import json, os, re, sys
 root = "/verif/seeded"
 confirm = {}
-if os.path.exists("/tmp/confirm_demos.log"):
-    for l in open("/tmp/confirm_demos.log"):
-        m = re.match(r"(C\d+) cmd='(.*)' with_change_exit=(\d+) without_change_exit=(\d+)", l)
-        if m:
-            confirm[m.group(1)] = {"cmd": m.group(2), "with_change_exit": int(m.group(3)), "without_change_exit": int(m.group(4))}
+for series in ("a", "b", "c"):
+    lp = os.path.join(root, "confirm_demos_%s.log" % series)
+    if os.path.exists(lp):
+        for l in open(lp):
+            m = re.match(r"(C\d+) cmd='(.*)' with_change_exit=(\d+) without_change_exit=(\d+)", l)
+            if m:
+                confirm[(m.group(1), series)] = {"cmd": m.group(2), "with_change_exit": int(m.group(3)), "without_change_exit": int(m.group(4))}
 for d in sorted(os.listdir(root)):
     p = os.path.join(root, d)
     if not os.path.isdir(p):
@@ -31,7 +33,7 @@ for d in sorted(os.listdir(root)):
         "origin": "fresh sub-agent given only the property text and its own scratch worktree of /repo",
         "confirmed_by_me": {
             "baseline_211_pass_with_change": st.get("baseline", {}).get("exit") == 0 if st else old.get("confirmed_by_me", {}).get("baseline_211_pass_with_change"),
-            "demo": confirm.get(prop, old.get("confirmed_by_me", {}).get("demo")),
+            "demo": confirm.get((prop, d.split("-")[-1]), old.get("confirmed_by_me", {}).get("demo")),
             "how": "patch applied to /repo's working tree by tools/seedtest.py (reverted afterwards): tools/baseline.sh, then every quick check; demonstration run in the agent's scratch worktree with the change and with the change stashed",
         },
         "checks_run": {k: {"exit": v["exit"], "violations": v.get("violations")} for k, v in st.items() if k != "baseline"} or old.get("checks_run", {}),
